@@ -4,19 +4,19 @@ import itertools
 from ..env import np, puan, pg, cc, pnd, clear_caches
 from .. import ref, cfgspace
 from ..ast import bind, show, walk, is_var, structure, C, L
-from ..fingerprint import fingerprint, diff
+from ..fingerprint import fingerprint, diff, memo_state, memo_changed
 
 ID = "C18"
-RULE = ("Mode H: 4 base configurators (no rule; one defaulted rule; two rules; a top-level item plus a rule) x ALL sequences of length <=3 "
-        "(quick) / <=4 (thorough) over a menu of 8 rules (plain, defaulted, implication rules, generated and explicit ids, one whose id "
-        "collides with an existing rule id, one whose id equals a top-level item). Every prefix is a state; transition = add(rule) on the "
+RULE = ("Mode H: 5 base configurators (no rule; one defaulted rule; two rules; a top-level boolean item plus a rule; a top-level integer item plus a rule) x ALL sequences of length <=3 "
+        "(quick) / <=4 (thorough) over a menu of 9 rules (plain, defaulted, implication rules, generated and explicit ids, one whose id "
+        "collides with an existing rule id, two whose id equals a top-level item - one of them an item with other bounds than (0,1)). Every prefix is a state; transition = add(rule) on the "
         "real object. oracle: after every accepted addition the configurator has the same structural key, default priorities, polyhedron "
         "and exact-solver selections (priority alphabet) as StingyConfigurator(*old_rules, *added, id=base.id) built from fresh objects; the "
         "id is kept; the deep fingerprint of the base and of every intermediate configurator is unchanged; a rule whose id names an existing "
         "top-level proposition is refused at whatever position, leaving the configurator unchanged. non-trivial = distinct sequence with at "
         "least one accepted addition")
 ASSUMPTIONS = ["caches are cleared before each comparison (C09 owns cache state)"]
-BOUNDS = {"quick": "4 bases x sequences of length <=3 over 8 rules", "thorough": "4 bases x sequences of length <=4"}
+BOUNDS = {"quick": "5 bases x sequences of length <=3 over 9 rules", "thorough": "5 bases x sequences of length <=4"}
 
 
 def bases():
@@ -25,6 +25,7 @@ def bases():
         ("B1:ccAny(a,b|a)", [cfgspace.ccAny("ab", "a", "R1")]),
         ("B2:ccXor(a,b,c|b)&c->x", [cfgspace.ccXor("abc", "b", "R1"), C('Imply', "R2", [L("c"), L("x")])]),
         ("B3:item a & AtMost1(a,b)", [L("a"), C('AtMost', "R1", [L("a"), L("b")], 1)]),
+        ("B4:integer item n[0,5] & Any(a,b)", [L("n", 0, 5), C('Any', "R1", [L("a"), L("b")])]),
     ]
 
 
@@ -38,6 +39,7 @@ def menu():
         ("All(a,b)->ccXor(x,y|y)", C('Imply', None, [C('All', None, [L("a"), L("b")]), cfgspace.ccXor("xy", "y")])),
         ("Any(b,c)#R1(collides)", C('Any', "R1", [L("b"), L("c")])),
         ("All(x,y)#a(item id)", C('All', "a", [L("x"), L("y")])),
+        ("All(x,z)#n(integer item id)", C('All', "n", [L("x"), L("z")])),
     ]
 
 
@@ -87,7 +89,10 @@ def check_seq(bi, seq, acc):
         acc.violation(None, case, dict(desc, what="base construction raised", exc=repr(e)))
         return
     cur = base
+    base.leafs()            # fill the per-instance memos of the base before anything is added: they must stay as they are
+    base.ge_polyhedron
     chain = [(base, fingerprint(base))]
+    memos = [memo_state({"c": base})]
     accepted = []
     for pos, j in enumerate(seq):
         rule = bind(mn[j][1])[0]
@@ -114,6 +119,11 @@ def check_seq(bi, seq, acc):
             return
         # nothing reachable before the call may have changed
         for n_, (c_, f_) in enumerate(chain):
+            stale = memo_changed(memos[n_], memo_state({"c": c_}))
+            if stale:
+                acc.violation(None, case, dict(desc, what="add() changed a result cached on an earlier configurator (leafs / polyhedron memo)", position=pos,
+                                               changed="base" if n_ == 0 else f"intermediate {n_}", memo=stale[:3]))
+                return
             f_now = fingerprint(c_)
             if f_now != f_:
                 acc.violation(None, case, dict(desc, what="add() changed an earlier configurator (the original is not left unchanged)", position=pos,
@@ -143,6 +153,7 @@ def check_seq(bi, seq, acc):
             acc.violation(None, case, dict(desc, what="observing the configurator changed it", position=pos))
             return
         chain.append((nxt, f_n))
+        memos.append(memo_state({"c": nxt}))
         cur = nxt
     if accepted:
         acc.nontriv((bi, seq))
